@@ -646,6 +646,27 @@ func checkC06(w *World, r *Report) {
 			}
 		}
 	}
+	// a list or a vector has one printed form, the bracketed one: every answer of the printer for those kinds is
+	// the result of the list printer (or of a function of the package it hands the value to), never a text put
+	// together on the spot (an abbreviation such as @x for a list headed by deref reads back as another list)
+	nform := 0
+	for _, rt := range (&evalModel{}).returns(ps.fn) {
+		ret := rt[0].(*ssa.Return)
+		kind := ""
+		for _, f := range e.holding(ret.Block()).list() {
+			if f.Kind == "type" && f.K.Root == ssa.Value(ps.fn.Params[0]) && f.K.Path == "" {
+				kind = shortType(f.T)
+			}
+		}
+		if kind != "types.List" && kind != "types.Vector" {
+			continue
+		}
+		nform++
+		c, isCall := rt[1].(ssa.Value).(*ssa.Call)
+		okForm := isCall && c.Call.StaticCallee() != nil && c.Call.StaticCallee().Pkg == ps.fn.Pkg
+		r.check(okForm, "C06.brackets", ps.fn, "printed form of a "+kind, ret.Pos(), "the bracketed form made by the list printer", "the printer answers for some "+kind+" values with a text of its own ("+describeVal(e, rt[1].(ssa.Value), 0)+") instead of the bracketed form: that text reads back as a different value")
+	}
+	r.floor("C06.brackets", "answers of the printer for lists and vectors", nform, 2)
 	// set and map: constant concatenations "#{" ... "}" and "{" ... "}"
 	for _, fn := range w.withPkgHelpers(ps.fn) {
 		if fn == nil {
@@ -926,6 +947,28 @@ func checkC16(w *World, r *Report) {
 		}
 	}
 	wholeFileRule(w, r, "C16.whole-file")
+	// where a token ends decides whether a delimiter is seen at all: the scanner's own rules are left alone
+	scannerConfigRule(w, r, "C16.token-rules")
+	// the REPL recognises an unfinished input by the exact text of the reader's error: between the reader and the
+	// classifier every function hands that error on as the value it received (nothing quoted into it, nothing
+	// appended)
+	r.rule("C16.error-intact", "an error found by a failed check is returned as that very error by every function of the runtime packages - READ, REPL and their wrappers included: the 'expected closer, got EOF' error reaches the REPL's classifier with the text the reader gave it (shared with C03.propagate)")
+	if mm := newEvalModel(w, e); mm.ok {
+		before, beforeF := len(r.Obl), len(r.Floors)
+		rulePropagate(mm, r)
+		for i := before; i < len(r.Obl); i++ {
+			if r.Obl[i].Rule == "C03.propagate" {
+				r.Obl[i].Rule = "C16.error-intact"
+			}
+		}
+		for i := beforeF; i < len(r.Floors); i++ {
+			if r.Floors[i].Rule == "C03.propagate" {
+				r.Floors[i].Rule = "C16.error-intact"
+			}
+		}
+	} else {
+		r.undecided("C16.error-intact", nil, "evaluator model", token.NoPos, mm.why)
+	}
 	replAccumulateRule(w, r, multi, "C16.repl-reset")
 	leafReaderRule(w, r, "C16.one-token")
 	peekNextRule(w, r, "C16.peek-next")
@@ -2495,3 +2538,4 @@ func trueOnlyWithPrefix(h *ssa.Function, marker string) bool {
 	}
 	return n > 0
 }
+
